@@ -1036,6 +1036,15 @@ def ulps(base, a, b):
     return abs(ia - ib)
 
 
+def bump(base, x):
+    """x moved away from zero by one unit in the last place of its precision (f32 / f64); 0 -> the smallest denormal"""
+    if base == "f32":
+        b = struct.unpack("<I", struct.pack("<f", x))[0]
+        return struct.unpack("<f", struct.pack("<I", (b + 1) & 0xffffffff))[0] if (b & 0x7fffffff) < 0x7f7fffff else x
+    b = struct.unpack("<Q", struct.pack("<d", x))[0]
+    return struct.unpack("<d", struct.pack("<Q", (b + 1) & 0xffffffffffffffff))[0] if (b & 0x7fffffffffffffff) < 0x7fefffffffffffff else x
+
+
 def round_to(ti, v):
     """a python scalar result -> the value an array of element type ti would hold"""
     if ti.shape == "prim":
@@ -1588,7 +1597,15 @@ class Exerciser:
                     elif x != y:
                         w = max(w, 10 ** 9)
                 allfinite = all((not isinstance(x, float)) or (x == x and not math.isinf(x)) for x in rn + gn)
-                if w > self.o["ulp_tol"] and allfinite and how in ("module", "scalar-self", "element-method"):
+                if w > self.o["ulp_tol"] and allfinite and (e.owner, e.name) in TOLERANCE and len(sargs) == 2:
+                    # inner products in two summation orders: the bound is in units of eps * (sum of the absolute terms)
+                    terms = sum(abs(p_ * q_) for p_, q_ in zip(flat(specs[0].ti, sargs[0]), flat(specs[1].ti, sargs[1])))
+                    eps = 2.0 ** (-23 if tti.base == "f32" else -52)
+                    dif = max(abs(float(x) - float(y)) for x, y in zip(rn, gn))
+                    tiny = 2.0 ** (-149 if tti.base == "f32" else -1074)        # products of denormals round to 0 / the smallest denormal
+                    if terms == terms and not math.isinf(terms):
+                        w = min(w, dif / (terms * eps + 4 * tiny))
+                elif w > self.o["ulp_tol"] and allfinite and how in ("module", "scalar-self", "element-method"):
                     # allow a few ulps of the SUM OF ABSOLUTE TERMS, estimated by the sensitivity of
                     # the scalar binding to a one-ulp perturbation of each primitive float input.
                     sens = self.sensitivity(e, how, fn, specs, sargs, tti, rn)
@@ -1759,7 +1776,7 @@ class Exerciser:
                     if not isinstance(xc, float) or xc != xc or math.isinf(xc):
                         continue
                     c2 = list(comps)
-                    c2[c] = xc * (1.0 + u) if xc != 0 else u * 1e-30
+                    c2[c] = bump(s.ti.base, xc)          # one unit in the last place of the INPUT's precision (denormals too)
                     a2 = [copy_elem(t.ti, y) for t, y in zip(specs, sargs)]
                     a2[j] = unflat(s.ti, c2)
                     r2 = scalar_eval(e, how, a2, tti)
@@ -1769,7 +1786,9 @@ class Exerciser:
                     d = max(abs(float(p) - float(q)) for p, q in zip(rn, r2n))
                     if d == d and not math.isinf(d):
                         total += d
-        except Exception:
+        except Exception as ex:
+            if os.environ.get("C20_DEBUG"):
+                traceback.print_exc()
             return None
         return total
 
